@@ -56,19 +56,42 @@ static std::string tag_string(const WB::World &w, double tag)
   return i < w.feature_tags.size() ? w.feature_tags[i] : "<out of range>";
 }
 
-// which features of `root` cover the query, decided by the code itself on single-feature worlds
+// every model list of a feature removed, at feature, section and segment level
+static void strip_models(J &j)
+{
+  if (j.is_obj())
+    {
+      for (const char *k : {"temperature models", "composition models", "grains models", "velocity models"}) if (j.has(k)) j.erase(k);
+      for (auto &kv : j.o) strip_models(kv.second);
+    }
+  else if (j.is_arr()) for (auto &e : j.a) strip_models(e);
+}
+
+// which features of `root` cover the query, decided by the code itself on single-feature worlds. The extent of a feature is its
+// geometry, whatever models it carries (a feature without any model still contains its points and reports its tag), so each
+// single-feature world holds the feature's geometry with one indicator model instead of its own models.
 struct Singles
 {
-  std::vector<std::unique_ptr<WB::World>> w;
+  std::vector<std::unique_ptr<WB::World>> w;   // the feature alone, with its own models
+  std::vector<std::unique_ptr<WB::World>> geo; // the feature's geometry alone, with one indicator model
   explicit Singles(const J &root)
   {
-    for (size_t i = 0; i < root.at("features").size(); ++i) w.push_back(make_world(without_features(root, {i}).dump(), 1, "single"));
+    for (size_t i = 0; i < root.at("features").size(); ++i)
+      {
+        w.push_back(make_world(without_features(root, {i}).dump(), 1, "single"));
+        J one = without_features(root, {i});
+        strip_models(one["features"][0]);
+        J cm = J::obj();
+        cm["model"] = "uniform"; cm["compositions"] = J::arr({J(0)});
+        one["features"][0]["composition models"] = J::arr({cm});
+        geo.push_back(make_world(one.dump(), 1, "single-geometry"));
+      }
   }
   std::vector<size_t> covering(const J &q) const
   {
     std::vector<size_t> cov;
-    for (size_t i = 0; i < w.size(); ++i)
-      if (w[i]->properties(p3(q.at("p")), q.at("depth").num(), {{{4, 0, 0}}})[0] != -1) cov.push_back(i);
+    for (size_t i = 0; i < geo.size(); ++i)
+      if (geo[i]->properties(p3(q.at("p")), q.at("depth").num(), {{{4, 0, 0}}})[0] != -1) cov.push_back(i);
     return cov;
   }
 };
@@ -80,6 +103,8 @@ static J gen_locality(Chooser &ch)
   o.min_features = 2; o.max_features = 7;
   o.operations = true; o.model_ranges = true; o.global_constants = ch.flip(); o.hub_spread_km = 150;
   g::GW w = g::gen_world(ch, o);
+  // 12% of the features carry no model at all (a pure region marker): such a feature still contains its points and gives them its tag
+  for (auto &f : w.root["features"].a) if (ch.chance(12)) strip_models(f);
   J c = J::obj();
   c["world"] = w.root.dump();
   c["queries"] = g::gen_queries(ch, w, static_cast<int>(ch.range(2, 8)), 90);
@@ -124,6 +149,16 @@ static Result check_locality(const J &c)
       if (cov.size() >= 2) { r.nontrivial = true; r.inner_nt++; }
       r.classes.push_back("covering=" + std::to_string(std::min<size_t>(cov.size(), 4)) + (cov.size() >= 4 ? "+" : ""));
       if (cov.size() == n) r.classes.push_back("nothing-to-delete");
+      // the reported tag is that of the last feature containing the point (none: no tag)
+      {
+        std::string want = "<none>";
+        if (!cov.empty()) { const J &f = root.at("features")[cov.back()]; want = f.has("tag") ? f.at("tag").str() : f.at("model").str(); }
+        const std::string got = tag_string(*W, W->properties(p3(q.at("p")), q.at("depth").num(), {{{4, 0, 0}}})[0]);
+        bool modelless = false;
+        if (!cov.empty()) { J f = root.at("features")[cov.back()]; const std::string before = f.dump(); strip_models(f); modelless = f.dump() == before; }
+        if (modelless) r.classes.push_back("last covering feature has no models");
+        if (got != want) return Result::fail("locality-last-tag", "tag is '" + got + "', the last feature containing the point has tag '" + want + "'" + (modelless ? " (a feature without models)" : "") + "; query " + q.dump());
+      }
       // (a) delete every non-covering feature
       {
         auto Wd = make_world(without_features(root, cov).dump(), 1, "deleted");
